@@ -355,16 +355,18 @@ func (g *gen) nestedAllowed(parent, n Step, blockedSoFar int) bool {
 	}
 	switch parent.Split.Point {
 	case PtComplete, PtError:
-		if g.known(F19) {
+		if g.known(F19) && !Blocks(parent, n) {
 			// recorded finding: the parked Complete/Error is written although its subscriber was
 			// removed (and its completion signalled) meanwhile
-			x := m.Subs[parent.Split.Target]
-			removes := n.Op == OpShutdown && !m.Shutdown ||
-				n.Op == OpUnsubscribe && n.Sub == x.Idx && x.Live ||
-				n.Op == OpRemoveClient && !x.Sync && n.Conn == x.Conn && x.Live && !m.Shutdown
-			if removes {
-				g.exclude(F19)
-				return false
+			if x := m.Subs[parent.Split.Target]; x.Live {
+				c := m.Clone()
+				c.Open()
+				c.Begin(n, false)
+				c.End(n, false)
+				if !c.Subs[x.Idx].Live {
+					g.exclude(F19)
+					return false
+				}
 			}
 		}
 	case PtInit:
